@@ -53,6 +53,7 @@ def main() -> None:
     per_kind = {}
     dist = {}
     direct = []
+    unavailable = {}
     samples = []
     n_eval = 0
     for d in descs:
@@ -64,6 +65,12 @@ def main() -> None:
         try:
             obs = mod.run_case(d)
         except BaseException as ex:  # harness or implementation blew up: fail closed
+            if getattr(ex, "harness_only", False):
+                # the harness can no longer take the source apart (e.g. snippets.SnippetError): this input is
+                # not a failing input, the correspondence is unavailable -> reported once, without input
+                unavailable.setdefault(repr(ex), {"what": repr(ex), "traceback": traceback.format_exc()[-2000:], "count": 0})["count"] += 1
+                n_eval += 1
+                continue
             obs = {"harness_error": repr(ex), "traceback": traceback.format_exc()[-2000:]}
             direct.append({"what": "exception escaped while running the implementation on this input: " + repr(ex),
                            "input": d, "observed": obs})
@@ -117,6 +124,7 @@ def main() -> None:
     dump_json(os.path.join(outdir, "meta.json"), {
         "property": mod.PROP, "tier": tier, "seed": seed,
         "evaluations": n_eval, "files": files, "direct_violations": direct,
+        "correspondence_unavailable": list(unavailable.values()),
         "input_distribution": dist, "samples": samples, "extra": extra,
         "rule": getattr(mod, "RULE", ""), "wall_s": time.time() - t0,
     })
